@@ -271,6 +271,20 @@ func runC11(e *Env) Outcome {
 		feat["split-in-char"] = splitsInsideChar(a, steps)
 		feat["multi-chunk"] = countChunks(steps) > 1
 		feat["zero-length-chunk"] = hasZeroChunk(steps)
+		for _, st := range steps {
+			if !st.Chunk && len(st.Data) == 0 {
+				feat["empty-data-event"] = true
+			}
+		}
+		if feat["split-in-char"] {
+			e.Count("probe:split_inside_character", 1)
+		}
+		if feat["zero-length-chunk"] {
+			e.Count("probe:zero_length_chunk", 1)
+		}
+		if fault == "chunk-ends-inside-char" && !want && !got {
+			e.Count("probe:chunk_boundary_inside_character_fault_rejected", 1)
+		}
 		if p != nil {
 			sc.Steps, sc.Fault = stepStrings(steps), fault
 			e.Fail("panic-escaped", fmt.Sprintf("entry=RulesEventReceiver site=%s", p.Frame), p.Value)
